@@ -78,7 +78,7 @@ CHECKS['C13'].update(
 CHECKS['C18'] = dict(
     level='model_checking', engine='SCHED',
     technique='exhaustive exploration of all one-worker-pool schedules up to a deviation budget x PYTHONHASHSEED values (one interpreter each); differential oracle across all executions',
-    text='Scenarios with -j 1 (26 input/command families incl. ones where fresh variables, set-like lookups and competing rewrites matter, and a job built around the window in which the symbol tables are rebuilt, x 3 strategies) are run under the virtual one-worker pool for every schedule with up to 1 deviation (thorough 2: producer run-ahead, late main loop, every k) in 8 (16) separate interpreters with PYTHONHASHSEED 0..7; the sequence of accepted token sequences and the output bytes must be identical over all executions of a scenario. REAL tier: 16 runs of bin/ddsmt -j 1 with a real command that delays its k-th invocation, under two hash seeds, must give byte-identical outputs.',
+    text='Scenarios with -j 1 (26 input/command families incl. ones where fresh variables, set-like lookups and competing rewrites matter, and a job built around the window in which the symbol tables are rebuilt, x 3 strategies) are run under the virtual one-worker pool for every schedule with up to 1 deviation (thorough 2: producer run-ahead, late main loop, every k) in 8 (thorough 12) separate interpreters with PYTHONHASHSEED 0..7 (0..11); the sequence of accepted token sequences and the output bytes must be identical over all executions of a scenario. REAL tier: 16 runs of bin/ddsmt -j 1 with a real command that delays its k-th invocation, under two hash seeds, must give byte-identical outputs.',
     note=SCHED_NOTE + ' Process ids are irrelevant to the observations (only file contents are compared).', design='3/C18')
 
 GRAPH_NOTE = ('Trusted: the argument of DESIGN 2.8 that every sequence of accepted inputs of any run (any deterministic command, strategy, schedule) is a path of the explored rewrite graph; the seed family ddv/seeds.py (generated depth-1 formulas per theory, occurs-check equalities, hand-written command-level scripts, one script per operator of the typed generator); the harness serialisation as state key. Coverage is exhaustive within the stated depth / state caps from these seeds, not beyond (caps are reported in the evidence).')
